@@ -330,6 +330,23 @@ pub fn fault_point(site: &'static str) -> std::result::Result<(), rusqlite::Erro
     }
 }
 
+/// fault point placed right before COMMIT. An error kind does not return an error: it makes the real COMMIT statement
+/// fail with the transaction still open (a deferred foreign-key violation in a temporary table), so that the
+/// shipped error handling of COMMIT is what runs. Crash kinds act as everywhere.
+pub fn poison_commit(
+    conn: &rusqlite::Connection,
+    site: &'static str,
+) -> std::result::Result<(), rusqlite::Error> {
+    if fault_point(site).is_err() {
+        conn.execute_batch(
+            "CREATE TEMP TABLE IF NOT EXISTS discret_verif_parent(id INTEGER PRIMARY KEY);
+             CREATE TEMP TABLE IF NOT EXISTS discret_verif_child(parent INTEGER REFERENCES discret_verif_parent(id) DEFERRABLE INITIALLY DEFERRED);
+             INSERT INTO discret_verif_child(parent) VALUES (424242);",
+        )?;
+    }
+    Ok(())
+}
+
 /// a fault point at a place where the shipped code has no error path: only crash kinds act here
 pub fn crash_point(site: &'static str) {
     let _ = fault_point(site);
